@@ -10,8 +10,8 @@ from . import boolsum
 
 ENCODE = "percent_encoding::utf8_percent_encode"
 WRITE_FMT = ("std::fmt::Formatter::<'a>::write_fmt",)
-WRITE_STR = ("std::fmt::Formatter::<'a>::write_str",)
-WRITE_CHAR = ("std::fmt::Formatter::<'a>::write_char",)
+WRITE_STR = ("std::fmt::Formatter::<'a>::write_str", "<std::fmt::Formatter<'_> as std::fmt::Write>::write_str")
+WRITE_CHAR = ("std::fmt::Formatter::<'a>::write_char", "<std::fmt::Formatter<'_> as std::fmt::Write>::write_char")
 
 
 def display_fn(facts):
@@ -106,6 +106,10 @@ def formatter_model(facts):
                 emits.append((bb, [("lit", chr(c0[1][1]))]))
             else:
                 emits.append((bb, [("display", args[1])]))
+        elif (path.endswith(" as std::fmt::Display>::fmt") or path == "std::fmt::Display::fmt") and len(args) == 2 and strip(args[1]) == ("arg", 2):
+            # `x.fmt(f)`: what `write!(f, "{}", x)` writes when f carries no width / precision -- which is the case for
+            # to_string(), the only formatting the properties speak about
+            emits.append((bb, [("display", args[0])]))
         else:
             other_uses.append((bb, path))
     if other_uses:
@@ -310,10 +314,11 @@ def region(t):
 
 def iter_source(nextcall, through=()):
     """the iterator expression a `next` call advances, looking through into_iter (and the given adaptors)"""
-    it = nextcall[2][0]
-    src = it[2] if it[0] == "var" else it
-    for _ in range(6):
-        if src[0] == "call" and (src[1] in ("std::iter::IntoIterator::into_iter", "<I as std::iter::IntoIterator>::into_iter") or src[1] in through):
+    src = nextcall[2][0]
+    for _ in range(8):
+        if src[0] == "var" and len(src) > 2:
+            src = src[2]  # the iterator variable (or a variable it was moved into / out of): its initial value
+        elif src[0] == "call" and (src[1] in ("std::iter::IntoIterator::into_iter", "<I as std::iter::IntoIterator>::into_iter") or src[1] in through):
             src = src[2][0]
         else:
             break
@@ -328,6 +333,15 @@ def _split_call(n):
             return None
         return ("R" if n[1].endswith("rsplit_once") else "", c, n[2][0])
     return None
+
+
+def _item(c, r):
+    """an element of r.split(c).  Trimming c off the ends of r first only removes empty elements at the ends; the rules
+    that use items require the empty element to be skipped anyway (skip-set obligations of C02/C07), so the trimmed and
+    the untrimmed form denote the same significant items and are given one canonical form."""
+    while r[0] in ("Trim", "TrimStart", "TrimEnd") and r[1] == c:
+        r = r[2]
+    return ("Item", c, r)
 
 
 def _region(n):
@@ -358,7 +372,7 @@ def _region(n):
             # an item of split(c).filter(p) is an item of split(c) for which p holds (sem.filter_atoms supplies p as path atoms)
             src = iter_source(x, through=("std::iter::Iterator::filter",) if x[1].startswith("<std::iter::Filter<") else ())
             if src is not None and src[0] == "call" and src[1] == STR + "split" and cchar(src[2][1]) is not None:
-                return ("Item", cchar(src[2][1]), _region(src[2][0]))
+                return _item(cchar(src[2][1]), _region(src[2][0]))
         return ("?", nshow(n))
     if k == "field":
         base = n[1]
@@ -366,7 +380,7 @@ def _region(n):
         if base[0] == "some" and n[2] == "1" and base[1][0] == "call" and base[1][1].startswith("<std::iter::Enumerate<") and base[1][1].endswith("::next"):
             src = iter_source(base[1], through=("std::iter::Iterator::enumerate",))
             if src is not None and src[0] == "call" and src[1] == STR + "split" and cchar(src[2][1]) is not None:
-                return ("Item", cchar(src[2][1]), _region(src[2][0]))
+                return _item(cchar(src[2][1]), _region(src[2][0]))
         if base[0] in ("some", "ok"):
             x = base[1]
             if x[0] == "call" and x[1] == "std::option::Option::<T>::ok_or":
@@ -415,16 +429,49 @@ def region_ok(r):
     return region_ok(r[2])
 
 
+def variant_constraint(body, bb, local):
+    """frozenset of enum variant names `local` can have at block bb according to the dominating `switch discr(local)`
+    tests, or None if there is no such test"""
+    res = None
+    dom = body.dominators()
+    if bb not in dom:
+        return None
+    for d in sorted(dom[bb]):
+        t = body.term(d)
+        if t["t"] != "switch" or d == bb:
+            continue
+        op = t["discr"]
+        if op["o"] not in ("copy", "move") or op["place"]["proj"]:
+            continue
+        ds = [x for x in body.defs().get(op["place"]["l"], []) if not body.is_cleanup(x[0])]
+        if len(ds) != 1 or ds[0][2] != "rv" or ds[0][3]["r"] != "discr":
+            continue
+        rv = ds[0][3]
+        if rv["place"]["proj"] or rv["place"]["l"] != local or not rv.get("variants"):
+            continue
+        ok_vals = set()
+        for (lab, tg) in body.edges(d):
+            if tg == bb or bb in body.reachable_from(tg, avoid={d}):
+                if lab == "otherwise":
+                    taken = set(v for (l2, _) in body.edges(d) if l2 != "otherwise" for v in [l2[1]])
+                    ok_vals |= set(range(len(rv["variants"]))) - taken
+                else:
+                    ok_vals.add(lab[1])
+        names = frozenset(rv["variants"][v] for v in ok_vals if 0 <= v < len(rv["variants"]))
+        res = names if res is None else (res & names)
+    return res
+
+
 def returns(body):
     """Definition sites of the return place _0: [(bb, normalised term)]"""
     out = []
     seen = set()
-    work = [0]
+    work = [(0, None)]
     while work:
-        l = work.pop()
-        if l in seen:
+        l, allowed = work.pop()
+        if (l, allowed) in seen:
             continue
-        seen.add(l)
+        seen.add((l, allowed))
         for (b, i, kind, payload) in body.defs().get(l, []):
             if body.is_cleanup(b):
                 continue
@@ -436,8 +483,14 @@ def returns(body):
             if payload["r"] == "use" and payload["op"]["o"] in ("copy", "move") and not payload["op"]["place"]["proj"]:
                 src = payload["op"]["place"]["l"]
                 if src > body.arg_count and src not in body.mut_locals() and len([d for d in body.defs().get(src, []) if not body.is_cleanup(d[0])]) >= 1:
-                    work.append(src)
+                    # only the variants the dominating discriminant tests let through reach this copy (`Err(e) => return Err(e)`)
+                    al = variant_constraint(body, b, src)
+                    if allowed is not None:
+                        al = allowed if al is None else (al & allowed)
+                    work.append((src, al))
                     continue
+            if allowed is not None and payload["r"] == "aggregate" and payload.get("ak") == "adt" and payload.get("variant") is not None and payload["variant"] not in allowed:
+                continue
             out.append((b, norm(body._rv_term(payload))))
     out.sort(key=lambda x: x[0])
     return out
